@@ -91,6 +91,24 @@ impl<'a, V: CwVal> Map<&'a Addr, V> {
         ensures exists|recs: Seq<RecV>| entries_of::<V>(window(store.view(), lp(self.ns())), recs, r.rem(), order)
     { unimplemented!() }
 }
+// ---- Map::range_raw over ALL entries (cw-storage-plus src/map.rs `range_raw(store, None, None, order)`): one item per record
+// of the map's namespace window (raw key, decoded value or Err), in raw-key order; `Iterator::count` consumes it and
+// returns the number of items.   ASSUMED
+#[verifier::external_body]
+#[verifier::reject_recursive_types(V)]
+pub struct RawEntryIter<V> { p: core::marker::PhantomData<V> }
+impl<V> RawEntryIter<V> {
+    pub uninterp spec fn rem_len(&self) -> nat;
+    #[verifier::external_body]
+    pub fn count(self) -> (r: usize) ensures r as nat == self.rem_len() { unimplemented!() }
+}
+impl<'a, V: CwVal> Map<&'a Addr, V> {
+    #[verifier::external_body]
+    pub fn range_raw(&self, store: &dyn Storage, min: Option<core::ops::Bound<&'a Addr>>, max: Option<core::ops::Bound<&'a Addr>>, order: Order) -> (r: RawEntryIter<V>)
+        requires min is None, max is None
+        ensures exists|recs: Seq<RecV>| is_range_of(recs, window(store.view(), lp(self.ns())), None, None, order) && r.rem_len() == recs.len()
+    { unimplemented!() }
+}
 // Iterator::collect::<StdResult<Vec<_>>>() (rule D9): all items in order if every one is Ok, otherwise the first error
 #[verifier::external_body]
 pub fn entries_collect<V>(it: EntryIter<V>) -> (r: StdResult<Vec<(Addr, V)>>)
